@@ -52,6 +52,8 @@ type c12Model struct {
 	futurePaid   math.Int
 	futurePlan   string
 	futureBlock  uint64
+	projectsAtEnd map[string]bool // projects that existed when the last paid month ended
+	cuTainted     bool            // a (muted, known) CU-total finding was already reported for this subscription
 }
 
 type c12Mon struct {
@@ -60,10 +62,11 @@ type c12Mon struct {
 	prev   map[string]*subscriptiontypes.Subscription // newest entry seen at the last observation point
 	bal    map[string]math.Int                          // payer balances at the last observation point
 	payers []*Account
+	prevProjects map[string][]string // consumer -> project ids at the last observation point
 }
 
 func newC12Mon(s *Sim) *c12Mon {
-	m := &c12Mon{s: s, model: map[string]*c12Model{}, prev: map[string]*subscriptiontypes.Subscription{}, bal: map[string]math.Int{}}
+	m := &c12Mon{s: s, model: map[string]*c12Model{}, prev: map[string]*subscriptiontypes.Subscription{}, bal: map[string]math.Int{}, prevProjects: map[string][]string{}}
 	for _, c := range s.Consumers {
 		m.payers = append(m.payers, c.Acc)
 	}
@@ -79,6 +82,7 @@ func (m *c12Mon) snapshot() {
 	}
 	for _, c := range s.Consumers {
 		m.prev[c.Acc.Addr] = s.c13Newest(c.Acc.Addr)
+		m.prevProjects[c.Acc.Addr] = s.K.Projects.GetAllProjectsForSubscription(s.Ctx, c.Acc.Addr)
 	}
 }
 
@@ -102,13 +106,21 @@ func (m *c12Mon) compare(where string, c *ConsumerActor) {
 		if s.Height() >= md.removeAt {
 			projects := s.K.Projects.GetAllProjectsForSubscription(s.Ctx, addr)
 			r.Check(cur == nil && newest == nil, "subscription-outlives-payment", "still-active", "%s: all paid months of %s are consumed (removal due at height %d) but at height %d the subscription is still there: %s", where, c.Acc.Name, md.removeAt, s.Height(), c13SubStr(cur))
-			r.Check(len(projects) == 0, "subscription-outlives-payment", "projects-remain", "%s: subscription of %s is gone at height %d but its projects remain: %v", where, c.Acc.Name, s.Height(), projects)
+			sig := "projects-remain"
+			for _, p := range projects {
+				if !md.projectsAtEnd[p] {
+					// created by an AddProject transaction accepted between the last month boundary and the
+					// epoch at which the removal takes effect
+					sig = "project-added-after-last-month-remains"
+				}
+			}
+			r.Check(len(projects) == 0, "subscription-outlives-payment", sig, "%s: subscription of %s is gone at height %d but its projects remain: %v", where, c.Acc.Name, s.Height(), projects)
 			delete(m.model, addr)
 			r.Probe("c12_removed_with_projects")
 		}
 		return
 	}
-	if !c12Check(r, newest != nil, "subscription-vanished-early", where0(where), "%s: %s paid for %d more month(s) (next boundary %s) but has no subscription at height %d (current view: %s)", where, c.Acc.Name, md.left, c12T(md.expiry), s.Height(), c13SubStr(cur)) {
+	if !c13Check(r, newest != nil, "subscription-vanished-early", where0(where), "%s: %s paid for %d more month(s) (next boundary %s) but has no subscription at height %d (current view: %s)", where, c.Acc.Name, md.left, c12T(md.expiry), s.Height(), c13SubStr(cur)) {
 		return
 	}
 	r.Check(newest.DurationLeft == md.left, "months-left-mismatch", where0(where), "%s: %s should have %d month(s) left, the chain says %d at height %d: %s", where, c.Acc.Name, md.left, newest.DurationLeft, s.Height(), c13SubStr(newest))
@@ -118,12 +130,6 @@ func (m *c12Mon) compare(where string, c *ConsumerActor) {
 	if f != nil && md.hasFuture {
 		r.Check(f.DurationBought == md.futureMonths && f.PlanIndex == md.futurePlan && f.PlanBlock == md.futureBlock, "advance-purchase-mismatch", where0(where), "%s: %s advance purchase should be %s@%d x%d: %s", where, c.Acc.Name, md.futurePlan, md.futureBlock, md.futureMonths, c13SubStr(newest))
 	}
-}
-
-// c12Check is r.Check that also tells the caller whether to go on (a muted known finding returns).
-func c12Check(r *simrt.Run, ok bool, class, sig, format string, a ...interface{}) bool {
-	r.Check(ok, class, sig, format, a...)
-	return ok
 }
 
 func c12T(u uint64) string { return time.Unix(int64(u), 0).UTC().Format("2006-01-02T15:04:05") }
@@ -249,6 +255,12 @@ func (m *c12Mon) afterBlock() {
 		default:
 			// paid time is over
 			md.removeAt = nextEpoch
+			md.projectsAtEnd = map[string]bool{}
+			if before != nil {
+				for _, p := range m.prevProjects[addr] {
+					md.projectsAtEnd[p] = true
+				}
+			}
 			if before != nil && before.AutoRenewalNextPlan != subscriptiontypes.AUTO_RENEWAL_PLAN_NONE {
 				r.Probe("c12_auto_renewal_failed")
 				if plan, ok := s.c13LatestPlan(before.AutoRenewalNextPlan); ok {
@@ -266,8 +278,8 @@ func (m *c12Mon) afterBlock() {
 		if md.removeAt == 0 && newest != nil {
 			// the new month starts with the full allowance of the plan version in force
 			plan, ok := s.K.Plans.FindPlan(s.Ctx, newest.PlanIndex, newest.PlanBlock)
-			if ok {
-				r.Check(newest.MonthCuLeft == newest.MonthCuTotal && newest.MonthCuTotal == plan.PlanPolicy.TotalCuLimit, "month-cu-not-reset", boundary, "%s entered a new month at height %d with MonthCuLeft=%d MonthCuTotal=%d, plan %s@%d total=%d", c.Acc.Name, s.Height(), newest.MonthCuLeft, newest.MonthCuTotal, newest.PlanIndex, newest.PlanBlock, plan.PlanPolicy.TotalCuLimit)
+			if ok && !md.cuTainted {
+				md.cuTainted = !c13Check(r, newest.MonthCuLeft == newest.MonthCuTotal && newest.MonthCuTotal == plan.PlanPolicy.TotalCuLimit, "month-cu-not-reset", boundary, "%s entered a new month at height %d with MonthCuLeft=%d MonthCuTotal=%d, plan %s@%d total=%d", c.Acc.Name, s.Height(), newest.MonthCuLeft, newest.MonthCuTotal, newest.PlanIndex, newest.PlanBlock, plan.PlanPolicy.TotalCuLimit)
 				if before != nil && before.MonthCuLeft < before.MonthCuTotal {
 					r.Probe("c12_reset_after_usage")
 				}
